@@ -528,9 +528,10 @@ ENUM_SRC = "Ev :: enum\n    A int,\n    B str,\n    C,\nend\n"
 
 
 class Render:
-    def __init__(self, naming, qual=None):
+    def __init__(self, naming, qual=None, fn_parens=0):
         self.n = naming
         self.qual = qual or (lambda b: None)    # binder -> namespace prefix ("m." / "a.b.") or None
+        self.fn_parens = fn_parens              # every function literal inside that many redundant parentheses
 
     def name(self, b):
         q = self.qual(b)
@@ -567,7 +568,7 @@ class Render:
         if k == "ifx":
             return "(if %s do %s else do %s end)" % (self.e(x[1]), self.e(x[2]), self.e(x[3]))
         if k == "lambda":
-            return self.lam(x, getattr(self, "cur", 0))
+            return "(" * self.fn_parens + self.lam(x, getattr(self, "cur", 0)) + ")" * self.fn_parens
         if k == "stx":
             ind = getattr(self, "cur", 0)
             try:
@@ -607,7 +608,8 @@ class Render:
         if k == "def":
             b, e = x[1], x[2]
             if e[0] == "lambda":
-                return "%s%s :: %s\n" % (p, self.n[b], self.lam(e, ind))
+                k = self.fn_parens
+                return "%s%s :: %s%s%s\n" % (p, self.n[b], "(" * k, self.lam(e, ind), ")" * k)
             return "%s%s %s %s\n" % (p, self.n[b], ":=" if b.mut else "::", self.e(e))
         if k == "assign":
             return "%s%s %s %s\n" % (p, self.name(x[1]), x[2], self.e(x[3]))
@@ -1607,3 +1609,37 @@ def ginit_use_program(ctx_i, probe, mutable):
     """the (freshly named) local used where it is not in scope: "@BEFORE" its definition, in an "@OTHER" branch,
     in another "@GLOBAL", in "@START": has to be rejected"""
     return _ginit(ctx_i, "twice_l", mutable, probe)
+
+
+# ------------------------------------------------------------------------------------------------
+# function literals inside redundant parentheses: the variable of a function definition is declared before its
+# body (it can call itself), `self` is visible in function fields of a blob instance -- with or without ( )
+
+PAREN_FN = [
+    ("local-recursive", "start :: fn do\n    f :: @(fn n: int -> int do\n        if n <= 0 do\n            ret 0\n        end\n"
+                        "        ret f(n - 1) + 1\n    end@)\n    print(f(3))\nend\n"),
+    ("local-recursive-shadowing-global", "f :: fn n: int -> int do\n    ret 100\nend\n\nstart :: fn do\n    f :: @(fn n: int -> int do\n"
+                                         "        if n <= 0 do\n            ret 0\n        end\n        ret f(n - 1) + 1\n    end@)\n"
+                                         "    print(f(3))\nend\n"),
+    ("local-plain", "start :: fn do\n    k := 4\n    g :: @(fn n: int -> int do\n        ret n + k\n    end@)\n    print(g(3))\nend\n"),
+    ("global-recursive", "f :: @(fn n: int -> int do\n    if n <= 0 do\n        ret 0\n    end\n    ret f(n - 1) + 1\nend@)\n\n"
+                         "start :: fn do\n    print(f(3))\nend\n"),
+    ("global-plain", "g :: @(fn n: int -> int do\n    ret n + 1\nend@)\n\nstart :: @(fn do\n    print(g(3))\nend@)\n"),
+    ("blob-field-self", "B :: blob { g: fn int -> int, k: int }\n\nstart :: fn do\n    b :: B { k: 5, g: @(fn n: int -> int do\n"
+                        "        ret n + self.k\n    end@) }\n    print(b.g(1))\nend\n"),
+    ("blob-field-self-global", "B :: blob { g: fn int -> int, k: int }\n\nb :: B { k: 5, g: @(fn n: int -> int do\n"
+                               "    ret n + self.k\nend@) }\n\nstart :: fn do\n    print(b.g(1))\nend\n"),
+    ("argument", "apply :: fn v: int, g: fn int -> int -> int do\n    ret g(v)\nend\n\nstart :: fn do\n    k := 2\n"
+                 "    print(apply(3, @(fn n: int -> int do\n        ret n * k\n    end@)))\nend\n"),
+    ("in-block-of-global-init", "limit :: 5\n\nscaled :: if limit > 3 do\n    f :: @(fn n: int -> int do\n        if n <= 0 do\n"
+                                "            ret 0\n        end\n        ret f(n - 1) + 1\n    end@)\n    f(limit)\nelse do\n    0\nend\n\n"
+                                "start :: fn do\n    print(scaled)\nend\n"),
+    ("nested-closure", "start :: fn do\n    outer :: @(fn a: int -> int do\n        inner :: @(fn n: int -> int do\n            if n <= 0 do\n"
+                       "                ret a\n            end\n            ret inner(n - 1) + 1\n        end@)\n        ret inner(2)\n    end@)\n"
+                       "    print(outer(7))\nend\n"),
+]
+
+
+def paren_fn_program(i, k):
+    """template i with every marked function literal inside k pairs of redundant parentheses"""
+    return PAREN_FN[i][1].replace("@(", "(" * k).replace("@)", ")" * k)
